@@ -31,12 +31,13 @@ fn profile() -> Profile {
     p.pts = img::ALPHA_PTS.to_vec();
     p.alpha_chance = 256;
     p.size_weights = [10, 100, 110, 30, 6];
-    p.content_classes = vec![1, 2, 3, 6, 8];
+    p.content_classes = vec![1, 2, 3, 6, 8, 10];
+    p.allow_custom = true;
     p
 }
 
 fn alpha_plane(t: &mut Tape, w: usize, h: usize, vmax: f64, is_float: bool) -> (Vec<f64>, &'static str) {
-    let kind = t.below(6);
+    let kind = t.below(7);
     let mut r = Mix::new(t.u32() as u64);
     let mut a = vec![0.0; w * h];
     let rnd = |r: &mut Mix| -> f64 {
@@ -82,12 +83,37 @@ fn alpha_plane(t: &mut Tape, w: usize, h: usize, vmax: f64, is_float: bool) -> (
             }
             "gradient"
         }
-        _ => {
+        5 => {
             // opaque with transparent holes
             for v in a.iter_mut() {
                 *v = if r.below(4) == 0 { 0.0 } else { vmax };
             }
             "holes"
+        }
+        _ => {
+            // runs of transparent / opaque / almost opaque / random alpha
+            let mut left = 0u64;
+            let mut k = 0u64;
+            for v in a.iter_mut() {
+                if left == 0 {
+                    left = 1 + r.below(40);
+                    k = r.below(4);
+                }
+                left -= 1;
+                *v = match k {
+                    0 => 0.0,
+                    1 => vmax,
+                    2 => {
+                        if is_float {
+                            1.0 - r.unit() * 1e-3
+                        } else {
+                            (vmax - 1.0 - r.below(if vmax > 255.0 { 255 } else { 3 }) as f64).max(0.0)
+                        }
+                    }
+                    _ => rnd(&mut r),
+                };
+            }
+            "runs"
         }
     };
     (a, name)
@@ -143,6 +169,25 @@ fn check(tape: &[u8], _ctx: &Ctx) -> Outcome {
     if spec.is_copy() {
         o.label("skipped:copy");
         return o;
+    }
+    // custom kernels: the relations hold for any kernel, the float tolerance needs its amplification
+    let custom = matches!(spec.alg.filter(), Some(crate::spec::FilterSpec::Custom(_)));
+    let amp = match crate::runner::catch(|| super::c02::call_abs_sum(&spec)) {
+        Ok(Some((s, _))) if s < 1.0e3 => s.max(2.0),
+        _ => {
+            if custom {
+                o.label("skipped:custom-kernel-unclassifiable-or-huge");
+                return o;
+            }
+            2.0
+        }
+    };
+    if custom {
+        if !matches!(crate::runner::catch(|| super::c02::call_acc_safe(&spec)), Ok(Some(true))) {
+            o.label("skipped:custom-accumulator-may-overflow");
+            return o;
+        }
+        o.label("custom-kernel");
     }
     // source: generated colours, our alpha plane
     let mut src = exec::src_image(&spec, Placement::Heap);
@@ -247,7 +292,7 @@ fn check(tape: &[u8], _ctx: &Ctx) -> Outcome {
             let ok = if is_float {
                 // the two calls run different kernels (x2/x4 vs one channel): a first-pass sample on an f32 rounding
                 // boundary may round differently, one ulp at the magnitude of the alpha plane, amplified by sum|w|
-                let tol = 2f64.powi(-22) * got.abs().max(want.abs()) + 2f64.powi(-21) * amax;
+                let tol = 2f64.powi(-22) * got.abs().max(want.abs()) + 2f64.powi(-23) * amp * amp * amax;
                 (got - want).abs() <= tol
             } else {
                 got == want
@@ -288,7 +333,9 @@ fn check(tape: &[u8], _ctx: &Ctx) -> Outcome {
         for (i, (x, y)) in onv.iter().zip(&offv).enumerate() {
             let is_alpha = i % nch == nch - 1;
             let ok = if is_float {
-                f32_ulps(*x, *y) <= 2 || (x - y).abs() <= 2f64.powi(-36)
+                // (a kernel whose weights do not sum to 1 - a custom zero-sum kernel - does not keep alpha at 1)
+                let a_res = onv[i - i % nch + nch - 1];
+                f32_ulps(*x, *y) <= 2 || (x - y).abs() <= 2f64.powi(-36) || f32_ulps(a_res, 1.0) > 2
             } else if simd16 && !is_alpha {
                 // the resampled alpha of an opaque image can undershoot max with sharpening filters,
                 // then the 16-bit SIMD division is allowed its one unit
